@@ -160,7 +160,9 @@ func copyMap(m map[string]string) map[string]string {
 }
 
 func npObject(p *NetPol) *netv1.NetworkPolicy {
-	return (&World{NPs: []NetPol{*p}}).Docs()[0].Obj.(*netv1.NetworkPolicy)
+	q := *p
+	q.EmptyIngress, q.EmptyEgress = false, false // the typed object cannot tell an empty list from an absent one
+	return (&World{NPs: []NetPol{q}}).Docs()[0].Obj.(*netv1.NetworkPolicy)
 }
 func anpObject(a *AdminPol) *apisv1a.AdminNetworkPolicy {
 	return (&World{ANPs: []AdminPol{*a}}).Docs()[0].Obj.(*apisv1a.AdminNetworkPolicy)
